@@ -49,7 +49,9 @@ CHECKS = {
                      "of the 64 registers, so every register of every bank is exercised in every operand role; the state after the set-up "
                      "subroutine is compared with a literal (registers nothing wrote are undefined), which anchors the reference state "
                      "that is otherwise read from the executor. 64 programs declare an array address again with another length (shorter, equal, "
-                     "longer; filled or not; in one or two subroutines) with ret_arr before and after.",
+                     "longer; filled or not; in one or two subroutines) with ret_arr before and after. A lattice of 12 register values "
+                     "(byte boundary, negative, 32-bit ends) produced in three ways is compared by every branch kind, with the "
+                     "subroutine in wire form.",
                 note="reference semantics of appendix B; 'unspecified' cases (negative indices, undefined operands) excluded and counted; "
                      "quantum hooks and wait polling are harness overrides of no-op/abstract methods",
                 ref="3/C04"),
@@ -66,8 +68,9 @@ CHECKS = {
                      "outcomes, memory, handles and the final state of the persistent qubit). Two further families: about 900 programs around "
                      "less-used entry points (builder.new_register incl. single-operand conditions on it, array entries indexed by a "
                      "Future, additions of 0 with a modulus, loops counting down, try_until_success with work queued around it, handles "
-                     "of array slices for 12 slice shapes, loop_until exit bounds -2..2), and every sequence of 3 (thorough 4) array-lifecycle operations (new array with / without "
-                     "values, flush, add to an entry, measure into an entry) on connections with and without ret_arr, judged against a model "
+                     "of array slices for 12 slice shapes, loop_until exit bounds -2..2, measurement of X/Y/Z eigenstates in each named "
+                     "basis), and every sequence of 3 (thorough 4) array-lifecycle operations (new array with / without "
+                     "values, flush, non-blocking flush, add to an entry, measure into an entry) on connections with and without ret_arr, judged against a model "
                      "of the controller arrays and the host handles after every flush.",
                 note="programs beyond the size/nesting bound and SDK usages outside the grammar are not covered; quantum hooks of the "
                      "controller are harness code (exact state vector); one open known finding (ret_reg of a never-written register)",
@@ -227,7 +230,7 @@ CHECKS = {
                 note="operands in range; 32-bit integers on the boundary lattice",
                 ref="3/C17"),
     "C18": dict(cat="model_checking", tech="stateless schedule exploration of the implementation: CHESS-style iterative context bounding on real threads (sys.settrace baton scheduler, scheduler-aware lock and sleep, fair scheduling for 3 threads, audited preemption-placement reduction)",
-                text="For 15 scenarios (plain, structured and silent send/receive, blocking and non-blocking, with and without a size hint, message values incl. the empty string) of 2-3 real ThreadSocket / StorageThreadSocket / broadcast-channel endpoints (<= 4 sends or receives each; "
+                text="For 16 scenarios (plain, structured and silent send/receive, blocking and non-blocking, with and without a size hint, message values incl. the empty string) of 2-3 real ThreadSocket / StorageThreadSocket / broadcast-channel endpoints (<= 4 sends or receives each; "
                      "plain, structured, callback, non-blocking, two socket ids, close while draining, either side first) every thread "
                      "schedule with <= 2 (quick) / <= 3 (thorough) preemptions at statement granularity in socket_hub.py, "
                      "thread_socket/socket.py and broadcast_channel.py is executed on the real code. Per direction and socket id the "
